@@ -55,3 +55,11 @@ chk("C09", "E1", "exploration",
     "deterministic simulation: real RateLimited reader over a scripted byte source on a virtual clock with live reconfiguration, plus the public Bucket with extreme parameters, both against an i128 reference token-bucket model",
     "Seeded exploration: (a) every read of the real rate-limited reader must complete exactly when the model says tokens and data are available (never earlier, never later), cumulative bytes stay within burst + accrued refill + one chunk, no read stalls; (b) Bucket::consume's verdict and deadline equal the model's for parameters up to i64::MAX, byte counts up to u64::MAX and idle gaps beyond 2^32 ms; arithmetic panics are caught (overflow checks on).",
     "Live config changes are issued between reads. Refill periods >= 2^32 ms not generated.")
+chk("C07", "E1", "fault_enumeration",
+    "deterministic simulation with exhaustive single-fault enumeration: every server-side I/O operation of the real accept path x {error, EOF, stall} and every cancellation point of the accept future, per seeded script",
+    "Each seeded script of 1..3 connection attempts through the real Inner::accept (rate limiter, tokio-websockets, handshake, authorize_with, register, actor) is run fault-free to count server-side I/O operations and accept polls, then re-executed once per (attempt, op index, fault kind) and per cancellation point. Oracle over the AccessControl log: admitted => exactly one on_disconnect with the same id, never before on_connect returned, never twice; denied => none; connection ids never reused. Exhaustive in the fault dimension for each script, sampled in the script dimension.",
+    "Entered after the HTTP upgrade (hyper bypassed). Stalls are ended by dropping the accept future after 20 virtual s, as the HTTP layer's establish timeout does.")
+chk("C08", "E1", "exploration",
+    "deterministic simulation: revoker task racing the real accept path (window between AccessControl admission and registry insertion widened by would-block I/O, fragmentation and a seeded schedule point before register)",
+    "Seeded exploration of a revocation (Clients::disconnect by connection id or endpoint id) issued k yields after on_connect returned Allow, or after accept() returned; oracle: within 2 virtual s the revoked connection has been reported disconnected and its client stream has ended.",
+    "Two known findings (revocation between admission and registration, by connection id and by endpoint id) are listed in known-findings.txt and reported as KNOWN-FINDING; any other class is a VIOLATION.")
